@@ -7,7 +7,7 @@
    shaped l  :=  l = ${{ w1 env: w2 NAME w3 [|] w4 DEFAULT w5 }}  — the pattern's language
    written as a decomposition; doc_ok = the documented grammar (DEFAULT only after `|`).   *)
 From Coq Require Import List String Ascii Bool Arith.
-From GT Require Import GConfModel GConfProofs TmplModel TmplProofs.
+From GT Require Import GConfModel GConfProofs TmplModel TmplProofs TmplReModel TmplReProofs.
 Import ListNotations.
 
 (* every string of the documented grammar — any name in [A-Za-z0-9_]+, optional default,
@@ -28,6 +28,16 @@ Theorem C16_captures : forall s n d,
              n = string_of_list_ascii (nm sh) /\ d = string_of_list_ascii (df sh) /\
              starts_nonword (w3 sh ++ pipe_s (has_pipe sh) ++ w4 sh ++ df sh ++ w5 sh ++ close_s).
 Proof. exact captures_string. Qed.
+
+(* "shaped" is not an ad-hoc notion: it is exactly the language of the source's regular
+   expression (hand_pattern is tied to the pattern text of yaml_templates.go by the translator
+   xlate_tmplre, `gen_pattern = hand_pattern` by reflexivity at every check) ... *)
+Theorem C16_pattern_language : forall l, matches hand_pattern l <-> shaped l.
+Proof. exact pattern_language. Qed.
+
+(* ... so the hand-written matcher accepts exactly what the regular expression matches *)
+Theorem C16_matcher_is_pattern : forall l, match_env_l l <> None <-> matches hand_pattern l.
+Proof. exact matcher_is_pattern. Qed.
 
 (* every other string is left untouched, whatever the environment *)
 Theorem C16_untouched : forall env s,
@@ -102,7 +112,6 @@ Proof. exact agree_load_full. Qed.
 
 (* non-vacuity *)
 Local Open Scope string_scope.
-Definition b (s : string) : bytes := list_ascii_of_string s.
 Example C16_example_grammar :
   doc_ok {| w1 := b "  "; w2 := b ""; nm := b "MY_ENV_VAR"; w3 := b "  "; has_pipe := true;
             w4 := b "  "; df := b "some-default"; w5 := b "  " |} /\
@@ -137,6 +146,8 @@ Proof. split; vm_compute; reflexivity. Qed.
 Print Assumptions C16_grammar.
 Print Assumptions C16_accepts_iff.
 Print Assumptions C16_captures.
+Print Assumptions C16_pattern_language.
+Print Assumptions C16_matcher_is_pattern.
 Print Assumptions C16_untouched.
 Print Assumptions C16_reject_leading.
 Print Assumptions C16_reject_trailing.
